@@ -19,8 +19,8 @@ NEXT Next
 INVARIANTS EvalAgrees SpecSane Emit
 CHECK_DEADLOCK FALSE
 """
-QUICK = [("nth", 3, 1), ("attr", 0, 1), ("comb", 3, 2), ("logic", 3, 1), ("deep", 5, 2), ("list", 3, 2), ("pe", 3, 2)]
-THOROUGH = [("nth", 4, 1), ("attr", 0, 1), ("comb", 3, 3), ("comb", 4, 2), ("logic", 4, 1), ("deep", 5, 2), ("list", 3, 2), ("pe", 3, 2)]
+QUICK = [("nth", 3, 1), ("attr", 0, 1), ("comb", 3, 2), ("logic", 3, 1), ("deep", 5, 2), ("sib", 4, 2), ("list", 3, 2), ("pe", 3, 2)]
+THOROUGH = [("nth", 4, 1), ("attr", 0, 1), ("comb", 3, 3), ("comb", 4, 2), ("logic", 4, 1), ("deep", 5, 2), ("sib", 5, 2), ("list", 3, 2), ("pe", 3, 2)]
 
 
 def run(ctx):
@@ -51,7 +51,7 @@ def run(ctx):
         "rule": "nth: every sibling list of <= Size nodes over {p,q,text,blank text,comment} x every :nth-*(an+b) with a in -2..2, b in -2..3 "
                 "and the keyword pseudo-classes; attr: 7 operators x 11 values x 7 needles x i flag; comb/list/pe: every labelled tree of <= Size "
                 "nodes x every complex selector of <= Depth compounds over 6 compounds and 4 combinators; logic: :not/:is/:has with argument lists; "
-                "deep: every labelled path of 4 and 5 elements x the logic selectors and the descendant / child selectors; attr also: class selectors, values "
+                "sib: sibling lists of <= 4 nodes over {p, q, r, text, blank text, comment} x the + and ~ combinators; type selectors also written in upper case; deep: every labelled path of 4 and 5 elements x the logic selectors and the descendant / child selectors; attr also: class selectors, values "
                 "whose words are separated by TAB, LF, FF, CR, VT, NBSP, EM SPACE. "
                 "Each (tree, selector) pair is one TLC initial state, all distinct.",
     }, assumptions=[
